@@ -13,7 +13,7 @@ from ..core import canon, e1
 PROPERTY = "C19"
 LEVEL = "exploration"
 RULE = (
-    "four base files (2.0 with ~V ~W ~P ~X ~C ~A; one with duplicated mnemonics; one version 1.2; one made of terse lines without description or without period); junk = every string "
+    "five base files (2.0 with ~V ~W ~P ~X ~C ~A; one with duplicated mnemonics; one version 1.2; one LAS 3.0 with a ~Tops_Definition section; one made of terse lines without description or without period); junk = every string "
     "of length 1..3 (thorough 1..4) over {. : blank a 1 \" - ( ) # / E _ , ~} (never with a leading tilde) plus adversarial long lines (500 periods, 500 "
     "colons, quotes only, 5000 digits, ':.', '.:', '..:', parsable lines carrying 25-40 digit integers, 1e999, hex); inserted at every line boundary inside ~V, ~W, ~P and the "
     "custom section, one line at a time, the same line 2 / 19..23 / 40 / 100 times at one site, and all pairs (two junk lines at two sites) over the short strings and over eight parsable lines ('%' in the name, blank and literal UNKNOWN names, a 5000-character name, the name of a genuine item), the same line twice included; each text "
@@ -37,6 +37,8 @@ LONG = ["." * 500, ":" * 500, '"' * 40, "'" * 40, "1" * 5000, ":.", ".:", "..:",
         "?? no idea : n.a. ??", "what : n.a.", "x : 1.5", "no.idea : a.b : c", "!!.[] ;; : --", ".()", "REMARK.[()] n/a : see below",
         "a.[] : b", "a.() 1 : c", "a.[[]] : d", "a.)( 1 : e", "a.( : f",
         # a tilde that is not the first non-blank character of the line (only a LEADING tilde makes a title line)
+        # LAS 3.0 punctuation: pipes (association marker) and braces (format) in any number
+        "NOTE. see : runs 1|2|3", ".:||", "a.b c : d | e | f", "T.M 1 : top | Tops[1] | x", "F.{F} 1 : {F10.4} | a", "| | |", "a.|b| c : d",
         "approx ~ 5 m of rathole", 'x "~" y', "a.~ 1 : d", "a. ~ : d", "TEMP.DEGC ~20 : approximately", "a~b.c~d e~f : g~h", "see ~Well above", "a : ~"]
 # parsable junk inserted twice (same line at two sites, and every ordered pair): duplicates take another path than single items
 PAIR_EXTRA = ["REC%. 100 : core recovery", "a%d. 1 : x", "%. 5 : p", "junk.unit value : descr", "A. 1 : same name as a genuine item",
@@ -53,6 +55,10 @@ BASES = [
     ("~Version\nVERS. 1.2 : version\nWRAP. NO : wrap\n~Well\nSTRT.M 1.0 : start\nSTOP.M 3.0 : stop\nSTEP.M 1.0 : step\n"
      "NULL. -999.25 : null\nWELL. name of well : W-12\nUWI. unique id : 0012345\n~Parameter\nP1.U 3.5 : first\n~Xtra\n"
      "Q1. 9 : q one\n~Curve\nDEPT.M : depth\nGR.GAPI : gamma\n~ASCII\n1.0 10.5\n2.0 -999.25\n3.0 30.5\n"),
+    # a LAS 3.0 file (sections with 3.0-style titles, associations after '|')
+    ("~Version\nVERS. 3.0 : version\nWRAP. NO : wrap\nDLM. SPACE : delimiter\n~Well\nSTRT.M 1.0 : start\nSTOP.M 3.0 : stop\nSTEP.M 1.0 : step\n"
+     "NULL. -999.25 : null\nWELL. my well : name\n~Parameter\nP1.U 3.5 : first\n~Tops_Definition\nTOPN.M : top name {S}\nTOPT.M : top depth {F} | x\n"
+     "~Curve\nDEPT.M : depth\nGR.GAPI : gamma\n~ASCII\n1.0 10.5\n2.0 -999.25\n3.0 30.5\n"),
     # terse genuine lines: no colon (no description field), no period (NAME : VALUE)
     ("~Version\nVERS. 2.0\nWRAP. NO\n~Well\nSTRT.M 1.0\nSTOP.M 2.0\nSTEP.M 1.0\nNULL. -999.25\nCOMP.  ACME OIL\nDRILLED : 12/11/2010\n"
      "~Parameter\nRUN : 3\nBHT.DEGC 35.5\n~Xtra\nNOTE : free form\nQ1. 9\n~Curve\nDEPT.M\nGR.GAPI\n~ASCII\n1.0 10.5\n2.0 -999.25\n"),
@@ -68,10 +74,10 @@ def sites_of(text):
         if ln.startswith("~"):
             prev = cur
             cur = ln[1].upper()
-            if prev in ("V", "W", "P", "X"):
+            if prev is not None and (prev in ("V", "W", "P") or prev not in "VWCPOA"):
                 out.append(i)  # end of the previous section
             continue
-        if cur in ("V", "W", "P", "X"):
+        if cur is not None and (cur in ("V", "W", "P") or cur not in "VWCPOA"):
             out.append(i)
     return lines, out
 
@@ -103,7 +109,7 @@ def points(tier):
         _, sites = sites_of(b)
         for si in range(len(sites)):
             pts.append(["single", bi, si, maxlen])
-        if tier == "quick" and bi in (1, 2):
+        if tier == "quick" and bi in (1, 2, 3):
             continue  # quick: pairs on the plain and on the terse base file only
         for si in range(len(sites)):
             for sj in range(si, len(sites)):
